@@ -32,11 +32,18 @@ func genC05(t *rapid.T) *C05Case {
 	d.Root.SubOpt = true
 	d.EachCmd(func(cm *Cmd, _ []*Cmd) {
 		cm.G.EachGroup(func(g *Group, _ []*Group) {
+			prevEnv := ""
 			for i := range g.Options {
 				o := &g.Options[i]
 				n++
 				if rapid.Bool().Draw(t, "hasEnv") {
 					o.Env = fmt.Sprintf("VPC05_%d", n)
+					// two options of one group reading the same variable
+					// (possibly with different delimiters)
+					if prevEnv != "" && rapid.IntRange(0, 3).Draw(t, "sharedEnv") == 0 {
+						o.Env = prevEnv
+					}
+					prevEnv = o.Env
 					if o.Kind.IsMulti() {
 						o.EnvDelim = rapid.SampledFrom([]string{"", ",", "::"}).Draw(t, "envDelim")
 					}
